@@ -214,7 +214,8 @@ theorem createDirAll_spec (flt : Fault) : ∀ (rp : List Name) (w : World),
       cases e with
       | enoent => exact ⟨g1.trans g2, fun h => w2 (w1 h), fun _ => isDir_nil _⟩
       | eexist => exact ⟨g1, w1, fun _ => isDir_nil _⟩
-      | other => exact ⟨g1, w1, fun _ => isDir_nil _⟩
+      | eintr => exact ⟨g1, w1, fun _ => isDir_nil _⟩
+      | other c => exact ⟨g1, w1, fun _ => isDir_nil _⟩
   | cons c rest ih =>
     intro w
     have hpar : rest.reverse <+: (c :: rest).reverse := by
@@ -260,7 +261,12 @@ theorem createDirAll_spec (flt : Fault) : ∀ (rp : List Name) (w : World),
         by_cases hd : isDir w1.fs (c :: rest).reverse = true
         · rw [if_pos hd]; exact ⟨g1, wf1, fun _ => hd⟩
         · rw [if_neg hd]; exact ⟨g1, wf1, fun h => by cases h⟩
-      | other =>
+      | eintr =>
+        simp only
+        by_cases hd : isDir w1.fs (c :: rest).reverse = true
+        · rw [if_pos hd]; exact ⟨g1, wf1, fun _ => hd⟩
+        · rw [if_neg hd]; exact ⟨g1, wf1, fun h => by cases h⟩
+      | other code =>
         simp only
         by_cases hd : isDir w1.fs (c :: rest).reverse = true
         · rw [if_pos hd]; exact ⟨g1, wf1, fun _ => hd⟩
@@ -305,6 +311,65 @@ theorem sysWrite_spec (flt : Fault) (w : World) (p : Path) (c : List Char) :
   | some e => left; simp
   | none => right; simp
 
+theorem openRetry_spec (flt : Fault) (p : Path) : ∀ (fuel : Nat) (w : World),
+    ((openRetry flt fuel w p).2 ≠ none ∧ (openRetry flt fuel w p).1.fs = w.fs) ∨
+    ((openRetry flt fuel w p).2 = none ∧ p ≠ [] ∧ isDir w.fs p.dropLast = true ∧ w.fs p ≠ some .dir ∧
+      (openRetry flt fuel w p).1.fs = upd w.fs p (.file [])) := by
+  intro fuel
+  induction fuel with
+  | zero => intro w; exact sysOpenCreate_spec flt w p
+  | succ fuel ih =>
+    intro w
+    have h := sysOpenCreate_spec flt w p
+    unfold openRetry
+    rcases hr : sysOpenCreate flt w p with ⟨w1, r⟩
+    rw [hr] at h
+    cases r with
+    | none => simpa using h
+    | some e =>
+      have hfs : w1.fs = w.fs := by
+        rcases h with ⟨_, h⟩ | ⟨h, _⟩
+        · exact h
+        · cases h
+      cases e with
+      | eintr =>
+        simp only
+        have := ih w1
+        rw [hfs] at this
+        exact this
+      | eexist => simpa using h
+      | enoent => simpa using h
+      | other c => simpa using h
+
+theorem writeRetry_spec (flt : Fault) (p : Path) (c : List Char) : ∀ (fuel : Nat) (w : World),
+    ((writeRetry flt fuel w p c).2 ≠ none ∧ (writeRetry flt fuel w p c).1.fs = w.fs) ∨
+    ((writeRetry flt fuel w p c).2 = none ∧ (writeRetry flt fuel w p c).1.fs = upd w.fs p (.file c)) := by
+  intro fuel
+  induction fuel with
+  | zero => intro w; exact sysWrite_spec flt w p c
+  | succ fuel ih =>
+    intro w
+    have h := sysWrite_spec flt w p c
+    unfold writeRetry
+    rcases hr : sysWrite flt w p c with ⟨w1, r⟩
+    rw [hr] at h
+    cases r with
+    | none => simpa using h
+    | some e =>
+      have hfs : w1.fs = w.fs := by
+        rcases h with ⟨_, h⟩ | ⟨h, _⟩
+        · exact h
+        · cases h
+      cases e with
+      | eintr =>
+        simp only
+        have := ih w1
+        rw [hfs] at this
+        exact this
+      | eexist => simpa using h
+      | enoent => simpa using h
+      | other c => simpa using h
+
 /-- What `fs::write(p, c)` can do: nothing; create/truncate `p`; or create/truncate and fill it. A
 directory at `p` is never replaced; on success `p` holds `c`. -/
 theorem writeFile_spec (flt : Fault) (w : World) (p : Path) (c : List Char) :
@@ -313,10 +378,10 @@ theorem writeFile_spec (flt : Fault) (w : World) (p : Path) (c : List Char) :
     ((writeFile flt w p c).2 = none → (writeFile flt w p c).1.fs p = some (.file c)) ∧
     (w.fs p = some .dir → (writeFile flt w p c).1.fs p = some .dir) ∧
     ((writeFile flt w p c).1.fs p ≠ w.fs p → p ≠ []) := by
-  have ho := sysOpenCreate_spec flt w p
+  have ho := openRetry_spec flt p retryFuel w
   unfold writeFile
   simp only
-  rcases hr : sysOpenCreate flt w p with ⟨w1, r⟩
+  rcases hr : openRetry flt retryFuel w p with ⟨w1, r⟩
   rw [hr] at ho
   simp only at ho ⊢
   rcases ho with ⟨hne, hfs⟩ | ⟨hnone, hp, hd, hnd, hfs⟩
@@ -335,8 +400,8 @@ theorem writeFile_spec (flt : Fault) (w : World) (p : Path) (c : List Char) :
       refine ⟨fun q hq => by rw [hfs]; exact upd_other _ _ hq, wf1, fun _ => by rw [hfs]; exact upd_same ..,
         fun h => absurd h hnd, fun _ => hp⟩
     · rw [if_neg hc]
-      have hw := sysWrite_spec flt w1 p c
-      rcases hr2 : sysWrite flt w1 p c with ⟨w2, r2⟩
+      have hw := writeRetry_spec flt p c retryFuel w1
+      rcases hr2 : writeRetry flt retryFuel w1 p c with ⟨w2, r2⟩
       rw [hr2] at hw
       simp only at hw ⊢
       rcases hw with ⟨hne2, hfs2⟩ | ⟨hnone2, hfs2⟩
@@ -597,7 +662,8 @@ theorem allocStaging_spec (flt : Fault) (stg : Nat → Name) : ∀ (fuel k : Nat
         rw [hfs] at this
         exact this
       | enoent => left; exact ⟨rfl, hfs⟩
-      | other => left; exact ⟨rfl, hfs⟩
+      | eintr => left; exact ⟨rfl, hfs⟩
+      | other c => left; exact ⟨rfl, hfs⟩
 
 def movedFs (fs : FS) (s t : Name) : FS := fun q =>
   match q with
@@ -770,17 +836,36 @@ theorem scaffold_spec (flt : Fault) (keys : Keys) (stg : Nat → Name) (name : N
                   · subst hcs; simp only [if_true]; exact (habs r).symm
                   · rw [if_neg hcs]; exact hframe _ (by simpa using hcs)
 
+theorem printOne_fs (flt : Fault) : ∀ (fuel : Nat) (w : World), (printOne flt fuel w).1.fs = w.fs := by
+  intro fuel
+  induction fuel with
+  | zero => intro w; simp [printOne]
+  | succ fuel ih =>
+    intro w
+    unfold printOne
+    simp only
+    cases hf : flt .write (tick .write w).2 with
+    | none => simp
+    | some e =>
+      cases e with
+      | eintr => simp only; rw [ih]; simp
+      | eexist => simp
+      | enoent => simp
+      | other c => simp
+
 theorem printLines_fs (flt : Fault) : ∀ (n : Nat) (w : World), (printLines flt n w).1.fs = w.fs := by
   intro n
   induction n with
   | zero => intro w; rfl
   | succ n ih =>
     intro w
+    have h1 := printOne_fs flt retryFuel w
     unfold printLines
-    simp only
-    cases hf : flt .write (tick .write w).2 with
-    | some e => simp
-    | none => simp only; rw [ih]; simp
+    rcases hr : printOne flt retryFuel w with ⟨w1, b⟩
+    rw [hr] at h1
+    cases b with
+    | false => simpa using h1
+    | true => simp only; rw [ih]; exact h1
 
 theorem printLines_status (flt : Fault) : ∀ (n : Nat) (w : World), (printLines flt n w).2 ≠ .err := by
   intro n
@@ -789,10 +874,10 @@ theorem printLines_status (flt : Fault) : ∀ (n : Nat) (w : World), (printLines
   | succ n ih =>
     intro w
     unfold printLines
-    simp only
-    cases hf : flt .write (tick .write w).2 with
-    | some e => simp
-    | none => simp only; exact ih _
+    rcases hr : printOne flt retryFuel w with ⟨w1, b⟩
+    cases b with
+    | false => simp
+    | true => simp only; exact ih _
 
 /-! ## contents of the complete tree -/
 
